@@ -34,7 +34,10 @@ Definition df64 : dec f64 :=
   k <- dZ ;; m <- dZ ;; e <- dZ ;;
   dret (match k with 0 => Fin m e | 1 => Inf false | 2 => Inf true | _ => NaN end).
 Definition dnum : dec num :=
-  t <- dZ ;; match t with 0 => (z <- dZ ;; dret (NI z)) | _ => (x <- df64 ;; dret (NF x)) end.
+  t <- dZ ;; match t with
+             | 0 => (z <- dZ ;; dret (NI z))
+             | 2 => (m <- dZ ;; e <- dZ ;; dret (NR {| dm := m; de := e |}))
+             | _ => (x <- df64 ;; dret (NF x)) end.
 Definition ddy : dec dy := m <- dZ ;; e <- dZ ;; dret {| dm := m; de := e |}.
 Definition darr : dec arr :=
   t <- dZ ;;
@@ -52,7 +55,7 @@ Definition elist {A} (e : A -> list Z) (l : list A) : list Z :=
   Z.of_nat (length l) :: flat_map e l.
 Definition ef64 (x : f64) : list Z :=
   match x with Fin m e => [0; m; e] | Inf false => [1; 0; 0] | Inf true => [2; 0; 0] | NaN => [3; 0; 0] end.
-Definition enum (x : num) : list Z := match x with NI z => [0; z] | NF v => 1 :: ef64 v end.
+Definition enum (x : num) : list Z := match x with NI z => [0; z] | NF v => 1 :: ef64 v | NR q => [2; dm q; de q] end.
 Definition eexc (e : exc) : Z :=
   match e with OverflowError => 1 | ValueError => 2 | TypeError => 3 | ZeroDivisionError => 4 | OtherError => 5 end.
 (* response: 0 :: payload | 1 :: [exception class] | 2 :: [] (unmodelled) | 3 :: [] (bad request) *)
